@@ -12,6 +12,7 @@ import (
 	_ "github.com/ldclabs/cose/key/aesgcm"
 	_ "github.com/ldclabs/cose/key/aesmac"
 	_ "github.com/ldclabs/cose/key/chacha20poly1305"
+	"github.com/ldclabs/cose/key/ecdh"
 	_ "github.com/ldclabs/cose/key/ecdsa"
 	_ "github.com/ldclabs/cose/key/ed25519"
 	_ "github.com/ldclabs/cose/key/hmac"
@@ -182,6 +183,60 @@ func streamDispatch(c *ctx) {
 		}
 		if i < 3 {
 			c.sample(fmt.Sprintf("alg=%d key=%s => %v", a.alg, describe(map[any]any(k)), base))
+		}
+	}
+	// 1b. key-agreement keys: a round-tripped private or public key derives the same public key and the same secrets
+	for rep := 0; rep < c.n(3, 40); rep++ {
+		for _, crv := range []int{iana.EllipticCurveP_256, iana.EllipticCurveP_384, iana.EllipticCurveP_521, iana.EllipticCurveX25519} {
+			k, err1 := ecdh.GenerateKey(crv)
+			peer, err2 := ecdh.GenerateKey(crv)
+			if err1 != nil || err2 != nil {
+				c.fail(failure{Op: "dispatch-ecdh", What: "GenerateKey failed", Input: fmt.Sprint(crv), Observed: fmt.Sprint(err1, err2), Expected: "keys"})
+				continue
+			}
+			if rep%2 == 1 {
+				k[iana.KeyParameterKid] = []byte("rotated-key")
+				peer[iana.KeyParameterKid] = []byte("rotated-key")
+			}
+			pub, errP := ecdh.ToPublicKey(k)
+			peerPub, errQ := ecdh.ToPublicKey(peer)
+			own, errE := ecdh.NewECDHer(k)
+			other, errO := ecdh.NewECDHer(peer)
+			if errP != nil || errQ != nil || errE != nil || errO != nil {
+				c.fail(failure{Op: "dispatch-ecdh", What: "a generated key is not usable", Input: describe(map[any]any(k)), Observed: fmt.Sprint(errP, errQ, errE, errO), Expected: "public keys and ECDH objects"})
+				continue
+			}
+			secret, errS := own.ECDH(peerPub)
+			for form := 1; form <= 3; form++ {
+				in := fmt.Sprintf("crv=%d form=%d key=%s", crv, form, describe(map[any]any(k)))
+				c.eval()
+				k2, err := roundTrip(k, form)
+				pub2, errR := roundTrip(pub, form)
+				if err != nil || errR != nil {
+					c.fail(failure{Op: "dispatch-ecdh", What: "key does not survive serialisation", Input: in, Observed: fmt.Sprint(err, errR), Expected: "round trip", Theorem: "C17_key_roundtrip_interchangeable"})
+					continue
+				}
+				// the public key derived from the round-tripped private key
+				d2, errD := ecdh.ToPublicKey(k2)
+				if errD != nil || !bytes.Equal(d2.Bytesify(), pub.Bytesify()) {
+					c.fail(failure{Op: "dispatch-ecdh", What: "the public key of a round-tripped private key differs from the original's", Input: in, Observed: fmt.Sprintf("%x err=%v", d2.Bytesify(), errD), Expected: fmt.Sprintf("%x", pub.Bytesify()), Theorem: "C17_key_roundtrip_interchangeable"})
+				}
+				// secrets: round-tripped private key with the peer's public key; peer with each form of our public key
+				if own2, errN := ecdh.NewECDHer(k2); errN != nil {
+					c.fail(failure{Op: "dispatch-ecdh", What: "a round-tripped private key is refused", Input: in, Observed: errN.Error(), Expected: "an ECDH object", Theorem: "C17_key_roundtrip_interchangeable"})
+				} else if s2, errT := own2.ECDH(peerPub); (errT == nil) != (errS == nil) || !bytes.Equal(s2, secret) {
+					c.fail(failure{Op: "dispatch-ecdh", What: "ECDH secret differs after the round trip of the private key", Input: in, Observed: fmt.Sprintf("%x err=%v", s2, errT), Expected: fmt.Sprintf("%x err=%v", secret, errS), Theorem: "C17_key_roundtrip_interchangeable"})
+				}
+				for name, p := range map[string]key.Key{"round-tripped public key": pub2, "public key of the round-tripped private key": d2} {
+					if p == nil {
+						continue
+					}
+					if s3, errT := other.ECDH(p); errT != nil || !bytes.Equal(s3, secret) {
+						c.fail(failure{Op: "dispatch-ecdh", What: "the peer does not agree on the secret with the " + name, Input: in, Observed: fmt.Sprintf("%x err=%v", s3, errT), Expected: fmt.Sprintf("%x", secret), Theorem: "C17_key_roundtrip_interchangeable"})
+					}
+				}
+			}
+			c.count(fmt.Sprintf("ecdh round trips crv=%d", crv))
 		}
 	}
 	// 2. grid of (kty, alg, crv) triples, registered and not: bare maps
